@@ -55,7 +55,13 @@ def gen_params(rng, tier):
     return {"spec": spec, "sa": g(8), "cont": cont, "reloaded": rng.random() < 0.25,
             "np": any("q" in s for s in gen.walk(spec)) and not any(s["k"] == "Sum" for s in gen.walk(spec)),
             # default / scalar weights where the visit order allows it (see gen.scalar_weight_safe)
-            "npmode": rng.choice(["array", "unit", ["scalar", 2.0]]) if gen.scalar_weight_safe(spec) else "array"}
+            "npmode": rng.choice(["array", "unit", ["scalar", 2.0]]) if gen.scalar_weight_safe(spec) else "array",
+            # a tree over ONE quantity filled with unstructured data (bare numbers, a bare array): string expressions then
+            # discover their single variable at the first call — also after pickling
+            "bare": {"form": rng.choice(["str", "namedstr", "cachedstr", "lambda", "cachedlambda", "strexpr"]),
+                     "shape": rng.choice(["sum", "bin", "binsum", "select"]),
+                     "pre": [rng.randint(-16, 24) / 8.0 for _ in range(rng.randint(0, 4))],
+                     "post": [rng.randint(-16, 24) / 8.0 for _ in range(rng.randint(1, 4))]}}
 
 
 def build(p):
@@ -86,6 +92,8 @@ def build(p):
             ops.append(("checkeq", "c", src, "clone and original diverge under identical vectorised fills"))
         ops.append(("pickle", "c2", "c"))
         expect.append(("reply", len(ops) - 1, "ok", "second pickle round trip failed"))
+    if p.get("bare"):
+        ops.append(("c11bare", p["bare"]))
     ops.append(("add", "s", "c", src))
     expect.append(("noraise", len(ops) - 1, "clone + original raised"))
     return {"ops": ops, "expect": expect}
@@ -103,6 +111,12 @@ class C11Exec(execs.PyExec):
             op = ("fills", op[1], [(self.rec(d), w) for d, w in op[2]])
         elif op[0] == "fill":
             op = ("fill", op[1], self.rec(op[2]), op[3])
+        elif op[0] == "c11bare":
+            try:
+                msg = bare_check(op[1])
+            except Exception as e:  # noqa: BLE001
+                msg = "pickling / filling with unstructured data crashed: %s: %s" % (type(e).__name__, str(e)[:200])
+            return ("violation: " + msg) if msg else "ok"
         elif op[0] == "pickle":
             try:
                 src = self.pool[op[2]]
@@ -116,6 +130,56 @@ class C11Exec(execs.PyExec):
             except Exception as e:  # noqa: BLE001
                 return "raise:" + type(e).__name__ + ":" + str(e)[:120]
         return super().apply(op)
+
+
+def bare_check(b):
+    """one quantity over unstructured data: original and pickle clone stay equal under identical row-wise and vectorised
+    continuations with bare numbers / a bare array"""
+    import numpy as np
+    from histogrammar.util import cached, named
+
+    def q():
+        f = b["form"]
+        if f == "str":
+            return "x"
+        if f == "strexpr":
+            return "x * 2 + 1"
+        if f == "namedstr":
+            return named("momentum", "x")
+        if f == "cachedstr":
+            return cached("x")
+        if f == "cachedlambda":
+            return cached(lambda x: x)
+        return lambda x: x
+
+    sh = b["shape"]
+    if sh == "sum":
+        h = gen.hg.Sum(q())
+    elif sh == "bin":
+        h = gen.hg.Bin(4, -2.0, 3.0, q())
+    elif sh == "binsum":
+        h = gen.hg.Bin(4, -2.0, 3.0, q(), gen.hg.Sum(q()))
+    else:
+        h = gen.hg.Select(lambda x: x > 0, gen.hg.Average(q()))
+    for x in b["pre"]:
+        h.fill(x)
+    c = pickle.loads(pickle.dumps(h))
+    if not (c == h) or c.toJson() != h.toJson():
+        return "the pickle clone of a tree filled with bare numbers differs from the original (%s over %s)" % (sh, b["form"])
+    for x in b["post"]:
+        h.fill(x)
+        c.fill(x)
+    if c.toJson() != h.toJson():
+        return "clone and original diverge under identical row-wise fills with bare numbers (%s over %s)" % (sh, b["form"])
+    arr = np.array(b["post"], dtype=float)
+    h.fill.numpy(arr)
+    c.fill.numpy(arr.copy())
+    if c.toJson() != h.toJson():
+        return "clone and original diverge under identical vectorised fills with a bare array (%s over %s)" % (sh, b["form"])
+    return None
+
+
+execs.PY_ONLY_OPS.add("c11bare")
 
 
 def make_py():
